@@ -717,7 +717,8 @@ def crosscheck(harnesses, P, ncells, variant='mc-asan', deadline=600.0, tier='qu
         res = {}
         with concurrent.futures.ThreadPoolExecutor(max_workers=NPROC) as ex:
             futs = {}
-            Ph = min(P, 1) if h in ('pool', 'strand') else P  # plain search of these two at P=2 takes tens of minutes per cell
+            # plain search of these two at P=2 takes tens of minutes per cell: P=1 unless asked for by name (VX_XC_FULL=1)
+            Ph = min(P, 1) if h in ('pool', 'strand') and not os.environ.get('VX_XC_FULL') else P
             for mode in ('cache', 'nocache'):
                 for i, c in enumerate(pick):
                     opts = dict(tier=tier, P=Ph, S=1, T=1, force_bounds=True, no_cache=(mode == 'nocache'))
@@ -748,7 +749,8 @@ def crosscheck(harnesses, P, ncells, variant='mc-asan', deadline=600.0, tier='qu
             sum(r['status'] == 'incomplete' for r in rows), sum(r.get('executions_cache', 0) for r in rows),
             sum(r.get('executions_nocache', 0) for r in rows)))
         sys.stdout.flush()
-    json.dump(dict(P=P, variant=variant, rows=report), open(os.path.join(VERIF, 'cache_crosscheck.json'), 'w'), indent=1)
+    outname = 'cache_crosscheck.json' if not harnesses else 'cache_crosscheck_%s.json' % '_'.join(harnesses)
+    json.dump(dict(P=P, variant=variant, rows=report), open(os.path.join(VERIF, outname), 'w'), indent=1)
     return 2 if bad else 0
 
 
